@@ -156,13 +156,16 @@ def check_hedger(case, ctx):
         simulate(case, objs)
     hl = hedge_list(objs)
     dtype_name = {torch.float32: "float32", torch.float64: "float64"}[objs["dtype"]]
-    with torch.no_grad():
+    # the identity holds in every mode a user evaluates it in: with/without autograd, train/eval
+    grad_on = case["sim_seed"] % 2 == 1
+    hedger.train(case["model_seed"] % 2 == 0)
+    with torch.set_grad_enabled(grad_on):
         with ctx.sut("C01/hedger/compute"):
-            pl_got = hedger.compute_pl(deriv, hedge=hedge)
-            pf_got = hedger.compute_portfolio(deriv, hedge=hedge)
-            unit = hedger.compute_hedge(deriv, hedge=hedge)
-            spot = torch.stack([h.spot for h in hl], dim=1)
-            payoff = deriv.payoff()
+            pl_got = hedger.compute_pl(deriv, hedge=hedge).detach()
+            pf_got = hedger.compute_portfolio(deriv, hedge=hedge).detach()
+            unit = hedger.compute_hedge(deriv, hedge=hedge).detach()
+            spot = torch.stack([h.spot for h in hl], dim=1).detach()
+            payoff = deriv.payoff().detach()
     if not torch.isfinite(unit).all() or not torch.isfinite(spot).all() or not torch.isfinite(payoff).all():
         ctx.cls("skipped:non-finite-hedge")  # totality is C18's subject
         return
@@ -175,7 +178,7 @@ def check_hedger(case, ctx):
     nt, multi = _nontrivial_cost(sp, un, costs)
     ctx.nontrivial(nt)
     ctx.cls("model:" + case["model"], "deriv:" + case["deriv"]["type"], "ul:" + case["ul"]["type"],
-            "hedge:" + case["hedge"], "dtype:" + dtype_name)
+            "hedge:" + case["hedge"], "dtype:" + dtype_name, "grad:" + str(grad_on))
     if multi:
         ctx.cls("nontrivial:H>=2-distinct-rates")
 
